@@ -580,10 +580,16 @@ func c20Yaml(name, kind string, ver int) string {
 	return fmt.Sprintf("name: %s\nkind: %s\nver: %d\n", name, kind, ver)
 }
 
-func (w *c20World) config(snap map[string]c20Obj) map[string]string {
+// config renders a snapshot; an EMPTY snapshot that is not a barrier push is delivered as it is:
+// a configuration without any object (the sentinels disappear with everything else and come back,
+// by Init, with the next push).
+func (w *c20World) config(snap map[string]c20Obj, barrier bool) map[string]string {
 	kv := map[string]string{}
 	for n, o := range snap {
 		kv[c20Prefix+n] = c20Yaml(n, "C20"+o.K, o.V)
+	}
+	if len(snap) == 0 && !barrier {
+		return kv
 	}
 	for _, s := range c20Sentinels {
 		kv[c20Prefix+s[0]] = c20Yaml(s[0], s[1], w.sentVer)
@@ -592,8 +598,10 @@ func (w *c20World) config(snap map[string]c20Obj) map[string]string {
 }
 
 // push delivers one snapshot to the object registry (returns when the registry has taken it).
-func (w *c20World) push(snap map[string]c20Obj) {
-	w.ch <- w.config(snap)
+func (w *c20World) push(snap map[string]c20Obj) { w.pushCfg(w.config(snap, false)) }
+
+func (w *c20World) pushCfg(kv map[string]string) {
+	w.ch <- kv
 	atomic.AddInt64(&w.pushed, 1)
 }
 
@@ -639,7 +647,7 @@ func (w *c20World) waitSentinels1(ver int, d time.Duration) bool {
 }
 
 func (w *c20World) pushAndWait(snap map[string]c20Obj, d time.Duration) bool {
-	w.push(snap)
+	w.pushCfg(w.config(snap, true))
 	return w.waitSentinels(w.sentVer, d)
 }
 
@@ -744,17 +752,35 @@ func c20ReplayOne(t testing.TB, beh []vx.M) (mism []vx.M, stalled bool, ncb int)
 	}()
 	poisoned := map[string]bool{}
 	var snap map[string]c20Obj
-	check := func(si int, st vx.M, cbs []c20CB, final bool) {
+	// check compares what happened since the last barrier with what the contract predicts for the
+	// steps `sts` (more than one when snapshots without any object were pushed: they have no barrier
+	// of their own, see below): the callbacks of all of them, the live set of the last one.
+	check := func(si int, sts []vx.M, cbs []c20CB, final bool) {
+		st := sts[len(sts)-1]
 		got := map[string][]string{}
 		for _, cb := range cbs {
 			got[cb.Name] = append(got[cb.Name], c20CBKey(cb.Op, cb.Name, cb.K, cb.V, cb.Born, cb.PK, cb.PV, cb.PBorn))
 		}
 		exp := map[string][]string{}
-		for _, e := range vx.List(st["exp"]) {
-			em := e.(vx.M)
-			n := vx.Str(em["name"])
-			exp[n] = append(exp[n], c20CBKey(vx.Str(em["op"]), n, vx.Str(em["k"]), vx.Int(em["v"]), vx.Int(em["born"]),
-				vx.Str(em["pk"]), vx.Int(em["pv"]), vx.Int(em["pborn"])))
+		trans := vx.M{}
+		for _, s1 := range sts {
+			for _, e := range vx.List(s1["exp"]) {
+				em := e.(vx.M)
+				n := vx.Str(em["name"])
+				exp[n] = append(exp[n], c20CBKey(vx.Str(em["op"]), n, vx.Str(em["k"]), vx.Int(em["v"]), vx.Int(em["born"]),
+					vx.Str(em["pk"]), vx.Int(em["pv"]), vx.Int(em["pborn"])))
+			}
+			t1, _ := s1["trans"].(vx.M)
+			for n, t := range t1 {
+				if len(sts) == 1 {
+					trans[n] = t
+				} else if ts := vx.Str(t); ts != "absent" && ts != "unchanged" {
+					if old := vx.Str(trans[n]); old != "" {
+						ts = old + "+" + ts
+					}
+					trans[n] = ts
+				}
+			}
 		}
 		names := map[string]bool{}
 		for n := range got {
@@ -763,7 +789,6 @@ func c20ReplayOne(t testing.TB, beh []vx.M) (mism []vx.M, stalled bool, ncb int)
 		for n := range exp {
 			names[n] = true
 		}
-		trans, _ := st["trans"].(vx.M)
 		for n := range names {
 			if poisoned[n] {
 				continue
@@ -817,14 +842,27 @@ func c20ReplayOne(t testing.TB, beh []vx.M) (mism []vx.M, stalled bool, ncb int)
 			}
 		}
 	}
+	// A snapshot without any object is delivered as such - no sentinel objects either - and so has
+	// no barrier of its own: the next snapshot is pushed right behind it, and what both cause is
+	// compared at that snapshot's barrier.  (A barrier push is a non-empty configuration that would
+	// make the registry compute the empty snapshot's diff once more.)  An empty last snapshot is
+	// followed by its barrier push like any other.
+	var group []vx.M
+	var pans []string
 	for si, st := range beh {
 		snap = c20Snap(st["snap"])
-		w.setStep(si+1, c20Strs(st["pan"]))
+		group = append(group, st)
+		pans = append(pans, c20Strs(st["pan"])...)
+		w.setStep(si+1, pans)
 		w.push(snap)
+		if len(snap) == 0 && si+1 < len(beh) {
+			continue
+		}
 		stalled = !w.barrier(snap, c20Wait)
 		cbs := w.takeLog()
 		ncb += len(cbs)
-		check(si, st, cbs, false) // after a stall: what has (not) happened within the deadline
+		check(si, group, cbs, false) // after a stall: what has (not) happened within the deadline
+		group, pans = nil, nil
 		if stalled {
 			if w.starved {
 				c20Starved = true
@@ -842,7 +880,7 @@ func c20ReplayOne(t testing.TB, beh []vx.M) (mism []vx.M, stalled bool, ncb int)
 			return mism, true, ncb
 		}
 		last := vx.M{"exp": []interface{}{}, "live": beh[len(beh)-1]["live"], "trans": vx.M{}, "pan": []interface{}{}}
-		check(len(beh)-1, last, w.takeLog(), true)
+		check(len(beh)-1, []vx.M{last}, w.takeLog(), true)
 	}
 	return mism, false, ncb
 }
@@ -893,6 +931,9 @@ func TestVerifC20Replay(t *testing.T) {
 // burst; callbacks are logged as they happen, `quiet` events (with the observed live set) after
 // each barrier.  VERIF_KINDCHANGE=0 keeps the kind of a live name fixed (a kind may change only
 // through disappear + reappear).
+//
+// One snapshot in eight is the empty configuration, delivered to the registry as a map without any
+// entry (in the middle of a burst the next snapshot follows without a barrier push in between).
 //
 // VERIF_LONGBURST=1 adds long bursts with slow consumers: three of four bursts have 14..32
 // snapshots, pushed back to back while the watchers' handler goroutines are kept busy
@@ -989,7 +1030,13 @@ func TestVerifC20Trace(t *testing.T) {
 			for b := 0; b < burst && s < steps; b, s = b+1, s+1 {
 				next := map[string]c20Obj{}
 				cross := false
+				// one snapshot in eight is the empty configuration: every name disappears at once (and
+				// the snapshot is delivered without any object, see config)
+				empty := rng.Intn(8) == 0
 				for _, nm := range names {
+					if empty {
+						break
+					}
 					cur, has := gsnap[nm]
 					r := rng.Intn(10)
 					switch {
